@@ -34,7 +34,7 @@ class CFG:
         body = fn.body if isinstance(fn.body, list) else [ast.Return(value=fn.body, lineno=fn.lineno, col_offset=0)]
         frontier = self._block(body, [(ENTRY, "")], loop=None, handlers=[])
         for src, lab in frontier:
-            self._edge(src, EXIT, lab or "fallthrough")
+            self._edge(src, EXIT, "fallthrough")
         self._reach = self._reachable_from(ENTRY)
         self._dom: Optional[Dict[object, Set[object]]] = None
         self._pdom: Optional[Dict[object, Set[object]]] = None
